@@ -135,6 +135,8 @@ def check(ctx):
         if not ok:
             ctx.violation("R-C17.2", f"c_lexer:layout:{label}", f"layout path {label} writes {sorted(writes - LAYOUT_ATTRS)} / calls {sorted(calls - {'_error', '_handle_ppline'})} / returns a value: white space or #line would influence more than positions",
                           file=lmod.rel, function="CLexer." + label.split(":")[0])
+    from . import c09
+    c09.scanner_sibling_rules(ctx, "R-C17.2", "R-C17.2")   # blanks are skipped by loops everywhere: the amount of white space never reaches a token
     ctx.require_instances("R-C17.2", 20)
 
     # ---- R-C17.4 ---------------------------------------------------------------------
